@@ -271,6 +271,11 @@ func (g *richGen) stmt() {
 		case 5:
 			g.ln(`package.path = "p%d"; package.loaded["m%d"] = %d; emit("x%d", require("m%d"), package.path)`, n, n, n, n, n)
 		case 9: // a private package.config, used by a module search
+			if g.t.Chance(1, 3) {
+				// no config at all, and a directory separator given to the search itself
+				g.ln(`package.config = nil; probe(0); emit("x%d", pcall(package.searchpath, "no.mod%d", "./?.lua;./?/x.lua", ".", "\\")); probe(0); emit("y%d", pcall(package.searchpath, "no.mod%d", "./?.lua"))`, n, n, n, n)
+				break
+			}
 			g.ln(`package.config = "\\\n:\n#\n!\n-\n"; probe(0); emit("x%d", pcall(package.searchpath, "no.mod%d", "./#.lua:./#/x.lua"))`, n, n)
 		case 10: // the defaults as every runtime sees them
 			g.ln(`emit("x%d", package.config, select(2, package.searchpath("no.mod%d", "./?.lua;./?/x.lua")))`, n, n)
